@@ -268,9 +268,7 @@ def insRowKey (sc : Schema) (k : InsKind) (cols : List Nat) (vals : List Val) (c
     | none => none
   let (row, cm, must) ← buildRow k spec 0 sc.cols curMax false
   checkOK sc row
-  let pv ← liftE (pick row sc.pk)
-  if pv.any (· == .null) then throw .pkNull
-  let key ← pkEnc sc row
+  let key ← encodedKey sc row
   pure (row, cm, must, key)
 
 def verOf : Option PEntry → Nat
@@ -325,9 +323,7 @@ def readRow (st : Store) (se : Sess) (key : Bytes) : Sess × Option PEntry :=
 def updRowKey (sc : Schema) (sets : List SetItem) (old : Row) : Except DmlErr (Row × Bytes) := do
   let new ← applySets sets old
   checkOK sc new
-  let pv ← liftE (pick new sc.pk)
-  if pv.any (· == .null) then throw .pkNull
-  let key ← pkEnc sc new
+  let key ← encodedKey sc new
   pure (new, key)
 
 def updOne (sc : Schema) (st : Store) (se : Sess) (sets : List SetItem) (key : Bytes) : Except MvErr Sess :=
